@@ -645,6 +645,59 @@ pub fn gen_line_shape(rng: &mut Rng, alpha: &[char]) -> Node {
     Node::Cat(v)
 }
 
+/// X{n,}( ^y | $\ny | z )...: a repetition whose follower is an alternation with anchored
+/// branches, so that the match has to be found at a position the repetition must give back to
+/// (the shapes the first-character analysis of the optimiser reasons about)
+pub fn gen_anchor_giveback(rng: &mut Rng) -> Node {
+    let alpha = ['a', 'b', '\n'];
+    let cls = |v: &[char]| Node::Class(ClassExpr { neg: false, items: v.iter().map(|c| ClassItem::Ch(*c)).collect(), sub: None });
+    let x = match rng.below(6) {
+        0 => Node::Char('a'),
+        1 => Node::Char('\n'),
+        2 => cls(&['a', '\n']),
+        3 => cls(&['a', 'b']),
+        4 => Node::Dot,
+        _ => Node::Char('b'),
+    };
+    let max = if rng.chance(3, 4) { None } else { Some(2 + rng.below(2)) };
+    let rep = Node::Repeat { body: Box::new(x), min: rng.below(2), max, greedy: rng.chance(4, 5), spell: 0 };
+    let nb = 1 + rng.below(3);
+    let mut branches = vec![];
+    for _ in 0..nb {
+        let mut v = vec![];
+        match rng.below(5) {
+            0 | 1 => v.push(Node::Bol),
+            2 => {
+                v.push(Node::Eol);
+                if rng.chance(2, 3) {
+                    v.push(Node::Char('\n'));
+                }
+            }
+            _ => {}
+        }
+        if rng.chance(5, 6) {
+            v.push(Node::Char(*rng.pick(&alpha)));
+        }
+        if rng.chance(1, 4) {
+            v.push(Node::Char(*rng.pick(&alpha)));
+        }
+        branches.push(Node::Cat(v).normalize());
+    }
+    let alt = if branches.len() == 1 { branches.pop().unwrap() } else { Node::Alt(branches) };
+    let grp = if rng.chance(1, 3) { Node::Group(Box::new(alt)) } else { Node::NcGroup(Box::new(alt)) };
+    let grp = if rng.chance(1, 6) { Node::Repeat { body: Box::new(grp), min: rng.below(2), max: Some(1 + rng.below(2)), greedy: true, spell: 0 } } else { grp };
+    let mut v = vec![];
+    if rng.chance(1, 2) {
+        v.push(Node::Char(*rng.pick(&['a', 'b'])));
+    }
+    v.push(rep);
+    v.push(grp);
+    if rng.chance(1, 3) {
+        v.push(Node::Char(*rng.pick(&alpha)));
+    }
+    Node::Cat(v).normalize()
+}
+
 // ---------- hostile strings ----------
 pub const HOSTILE_ALPHA: &[char] = &[
     '(', ')', '[', ']', '{', '}', '\\', '?', '*', '+', '|', '.', '^', '$', '-', ',', ':', 'a', 'b', '1', '0', '9', 'p', 'P', 'I', 's', 'L', 'u', 'd', 'w', 'n', ' ', '\n', '\u{0}', '\u{300}', '\u{FFFF}', '\u{10400}', '\u{10FFFF}',
